@@ -2,7 +2,7 @@
    Property theorems only (descriptor logic); each is closed by [exact] of a lemma of BasisModel_Proofs.v.
    Regularity of the basis matrix and warm-start equality are validated per run by checks/C04.py (not theorems). *)
 From Coq Require Import QArith Bool List ZArith.
-From SV Require Import BasisModel BasisModel_Proofs.
+From SV Require Import BasisModel BasisModel_Proofs BasisChangeModel BasisChange_Proofs.
 Import ListNotations.
 Local Open Scope nat_scope.
 
@@ -99,6 +99,45 @@ Proof.
   vm_compute. repeat split. discriminate.
 Qed.
 Print Assumptions C04_isBasisValid_rowrep_refuted.
+
+(* ---- modifications that keep the basis: several rows / columns removed at once (removedRows / removedCols) ---- *)
+(* the in-place loop "stat[perm[i]] = stat[i] for increasing i", cut to the new size, leaves the survivors in order -
+   for arrays of every length and every set of removed entries *)
+Theorem C04_compaction_keeps_survivors_in_order : forall (A : Type) (d : A) arr mask,
+  length arr = length mask -> compact d arr mask = keep arr mask.
+Proof. exact @compact_is_keep. Qed.
+Print Assumptions C04_compaction_keeps_survivors_in_order.
+
+(* if the basis is kept after removing rows, the column statuses are untouched, the row statuses are the survivors' and
+   the number of basic variables is the new number of rows *)
+Theorem C04_removed_rows_keeps_a_basis : forall d mask d' m,
+  length (d_rows d) = length mask -> count_dual (d_rows d) + count_dual (d_cols d) = m -> length (d_rows d) = m ->
+  removed_rows d mask = Some d' ->
+  d_rows d' = keep (d_rows d) mask /\ d_cols d' = d_cols d /\
+  length (d_rows d') = survivors mask /\ count_dual (d_rows d') + count_dual (d_cols d') = survivors mask.
+Proof. exact removed_rows_spec. Qed.
+Print Assumptions C04_removed_rows_keeps_a_basis.
+
+Theorem C04_removed_cols_keeps_a_basis : forall d mask d' m,
+  length (d_cols d) = length mask -> count_dual (d_rows d) + count_dual (d_cols d) = m ->
+  removed_cols d mask = Some d' ->
+  d_cols d' = keep (d_cols d) mask /\ d_rows d' = d_rows d /\
+  length (d_cols d') = survivors mask /\ count_dual (d_rows d') + count_dual (d_cols d') = m.
+Proof. exact removed_cols_spec. Qed.
+Print Assumptions C04_removed_cols_keeps_a_basis.
+
+(* the loop has to run over the OLD number of entries: run to the new (shrunk) number it misses a survivor of the tail *)
+Theorem C04_short_compaction_loop_refuted :
+  compact_short D_UNDEFINED [D_ON_LOWER; D_ON_LOWER; P_ON_UPPER] [true; false; false] <> keep [D_ON_LOWER; D_ON_LOWER; P_ON_UPPER] [true; false; false].
+Proof. exact short_loop_refuted. Qed.
+Print Assumptions C04_short_compaction_loop_refuted.
+
+Example C04_ex_removed_rows :
+  removed_rows (mkDesc [D_ON_LOWER; P_ON_UPPER; D_ON_UPPER; P_ON_LOWER] [D_ON_LOWER; P_FREE]) [true; false; true; false]
+    = Some (mkDesc [P_ON_UPPER; P_ON_LOWER] [D_ON_LOWER; P_FREE]) /\
+  removed_rows (mkDesc [D_ON_LOWER; P_ON_UPPER] [D_ON_LOWER; P_FREE]) [false; true] = None /\
+  removed_cols (mkDesc [D_ON_LOWER; P_ON_UPPER] [D_ON_LOWER; P_FREE]) [false; true] = Some (mkDesc [D_ON_LOWER; P_ON_UPPER] [D_ON_LOWER]).
+Proof. vm_compute. repeat split. Qed.
 
 (* ---- non-vacuity ---- *)
 Example C04_ex_valid_basis : isBasisValid ex_lp [BASIC; ON_UPPER] [ON_LOWER; ON_UPPER; BASIC] = true
